@@ -513,7 +513,14 @@ def rule_backend_flag(ctx: Ctx, rep: Report) -> None:
         o.rule = "C20.backend_flag"
 
 
+def rule_no_inplace_growth_(ctx: Ctx, rep: Report) -> None:
+    """C20.no_inplace_growth: a local that starts as a parameter (or a field of one) is never grown with `+=` (see sigcommon.rule_no_inplace_growth)."""
+    from rules.sigcommon import rule_no_inplace_growth
+    rule_no_inplace_growth(ctx, rep, "C20.no_inplace_growth", ('btclib.',), 1)
+
+
 RULES = [
+    ("C20.no_inplace_growth", rule_no_inplace_growth_),
     ("C20.nonce_consumed", rule_nonce_consumed),
     ("C20.flag_checked", rule_flag_checked),
     ("C20.flag_monotone", rule_flag_monotone),
